@@ -670,6 +670,12 @@ def rule_unsafe_inv(facts):
     import unsafe_table
     for q, ops in sorted(uses.items()):
         reason = unsafe_table.ALLOW.get(q)
+        if reason is None:
+            # the same reviewed function after its trait / module was moved (private item): matched without module qualifiers
+            sk = mirq.short_key(q)
+            cands = [k for k in unsafe_table.ALLOW if mirq.short_key(k) == sk and not facts.by_qname.get(k)]
+            if len(cands) == 1:
+                reason = unsafe_table.ALLOW[cands[0]]
         b = facts.by_qname[q][0]
         r.ob(reason is not None)
         if reason is None:
